@@ -77,7 +77,17 @@ pub fn decode_all(
     pc: usize,
 ) -> impl Iterator<Item = Result<Instruction<'_>, DecodeError>> + '_ + Clone {
     let mut decoder = Decoder::new(bytecode, pc);
-    std::iter::from_fn(move || decoder.decode())
+    let mut failed = false;
+    std::iter::from_fn(move || {
+        // A decoding error does not advance the program counter, so it
+        // is the last item we yield.
+        if failed {
+            return None;
+        }
+        let ins = decoder.decode();
+        failed = matches!(ins, Some(Err(_)));
+        ins
+    })
 }
 
 #[cfg(test)]
